@@ -32,7 +32,10 @@ type c04Pair struct {
 }
 
 func c04DeclXY(s *libSpace) (r, g, b, w refcolor.XY) {
-	f := func(c func() (x, y float32)) refcolor.XY { x, y := c(); return refcolor.XY{X: float64(x), Y: float64(y)} }
+	f := func(c func() (x, y float32)) refcolor.XY {
+		x, y := c()
+		return refcolor.XY{X: float64(x), Y: float64(y)}
+	}
 	r = f(func() (float32, float32) { c := s.PR(); return c.X, c.Y })
 	g = f(func() (float32, float32) { c := s.PG(); return c.X, c.Y })
 	b = f(func() (float32, float32) { c := s.PB(); return c.X, c.Y })
